@@ -86,6 +86,9 @@ class HistoryHarness(Harness):
         with world:
             loops = [world.new_loop()]
             inv = scen.make_inverter(M)
+            if scen.tcp:
+                # process-global Modbus/TCP transaction counter: optionally just below its 16-bit wrap
+                M.protocol._modbus_tcp_tx = self.scen_params.get("tx_start", 0)
             rix = req_index(scen.tcp)
             send, conn = scen.peer(world, lambda: loops[-1], script, rix, obs.delivered)
 
